@@ -124,6 +124,10 @@ def run(prog: Program, res: Result, tier: str) -> None:
         tgt = flow.expand(st.targets[0], flow.cfg.node_for(st), stop=lvs)
         call = flow.expand(st.value, flow.cfg.node_for(st), stop=lvs | {d.var for d in flow.defs if d.kind == "assign" and isinstance(d.value, ast.Call)
                                                                          and (dotted(d.value.func) or "").startswith("self._get")})
+        # a full-slice store into a view (`profile[:] = ...`) writes the element itself
+        while isinstance(tgt, ast.Subscript) and isinstance(tgt.slice, ast.Slice) and tgt.slice.lower is None \
+                and tgt.slice.upper is None and tgt.slice.step is None:
+            tgt = tgt.value
         # same element read and written
         okel = len(call.args) >= 2 and norm(call.args[0]) == norm(tgt)
         # loops over all (subint, subband)
@@ -133,13 +137,35 @@ def run(prog: Program, res: Result, tier: str) -> None:
             if isinstance(cur, ast.For):
                 loops.append(cur)
             cur = parent(cur)
-        ranges = {norm(l.target): resolve_leaf(prog, cls, norm(l.iter.args[0])) if isinstance(l.iter, ast.Call) and
-                  dotted(l.iter.func) == "range" and len(l.iter.args) == 1 else None for l in loops}
+
+        def extent(l: ast.For) -> str | None:
+            if not (isinstance(l.iter, ast.Call) and dotted(l.iter.func) == "range" and len(l.iter.args) == 1
+                    and isinstance(l.target, ast.Name)):
+                return None
+            a0 = l.iter.args[0]
+            if isinstance(a0, ast.Call) and dotted(a0.func) == "len" and len(a0.args) == 1:
+                # len(cube) / len(cube[i]) with i an enclosing loop variable: the extent of axis 0 / 1
+                seq = flow.expand(a0.args[0], flow.cfg.node_for(l), stop=lvs)
+                depth = 0
+                while isinstance(seq, ast.Subscript) and norm(seq.slice) in lvs:
+                    seq, depth = seq.value, depth + 1
+                base = resolve_leaf(prog, cls, norm(seq)) if dotted(seq) else None
+                return f"{base}.shape[{depth}]" if base == "self._data" else None
+            return resolve_leaf(prog, cls, norm(a0))
+        ranges = {norm(l.target): extent(l) for l in loops}
         idx_text = _subscripts(tgt)
-        full = okel and len(loops) == 2 and sorted(idx_text) == sorted(ranges) and set(ranges.values()) == {
-            "self._data.shape[0]", "self._data.shape[1]"} and idx_text[0] in ranges and ranges[idx_text[0]] == "self._data.shape[0]"
+        base_ok = resolve_leaf(prog, cls, norm(_sub_base(tgt)) or "") == "self._data"
+        axis_kw = [k for k in call.keywords if k.arg == "axis"]
+        axis = axis_kw[0].value.value if axis_kw and isinstance(axis_kw[0].value, ast.Constant) else (None if axis_kw else 0)
+        full = okel and base_ok and len(loops) == 2 and sorted(idx_text) == sorted(ranges) and set(ranges.values()) == {
+            "self._data.shape[0]", "self._data.shape[1]"} and idx_text[0] in ranges and ranges[idx_text[0]] == "self._data.shape[0]" \
+            and axis in (0, -1)
+        # one loop over the sub-integrations rotating each whole (subband, phase) plane along its phase axis: every
+        # profile of the plane gets the same step, which is right only when the step is indexed by the sub-integration
+        plane = okel and base_ok and len(loops) == 1 and idx_text == list(ranges) and \
+            set(ranges.values()) == {"self._data.shape[0]"} and axis in (1, -1)
         key = f"{up.name}:rotate"
-        if not full:
+        if not (full or plane):
             res.bad("R4", up, st, "the rotation is not applied to every (subint, subband) profile of the cube in place", key=key)
             continue
         shift = call.args[1]
@@ -149,7 +175,6 @@ def run(prog: Program, res: Result, tier: str) -> None:
         if not (isinstance(shift, ast.Subscript) and isinstance(shift.value, ast.Name) and norm(shift.slice) in ranges):
             res.bad("R4", up, st, "rotation amount is not step[<loop variable>]", key=key)
             continue
-        axis_kw = [k for k in call.keywords if k.arg == "axis"]
         step_name = shift.value.id
         ds = flow.reaching(step_name, flow.cfg.node_for(st))
         if len(ds) != 1 or not isinstance(ds[0].value, ast.Call) or not (dotted(ds[0].value.func) or "").startswith("self."):
@@ -401,6 +426,12 @@ MUTANTS = [
      "old": "    def replace_nan(self) -> None:", "new": "    def clip(self) -> None:\n        self.data[self.data < 0] = 0\n\n    def replace_nan(self) -> None:"},
     {"id": "c17-half-step", "file": F, "expect": "C17.R3",
      "old": "        bin_drifts = drifts - self._fph_shifts\n", "new": "        bin_drifts = (drifts - self._fph_shifts) // 2\n"},
+    {"id": "c17-plane-roll-wrong-axis", "file": F, "expect": "C17.R4", "old": '        for isubint in range(self.nsubints):\n            for isubband in range(self.nsubbands):\n                self.data[isubint][isubband] = np.roll(\n                    self.data[isubint][isubband],\n                    -pdelays[isubint],\n                    axis=0,\n                )\n',
+     "new": "        for isubint in range(self.nsubints):\n            self.data[isubint] = np.roll(self.data[isubint], -pdelays[isubint], axis=0)\n"},
+    {"id": "c17-plane-roll-dm-by-subint", "file": F, "expect": "C17.R4", "old": '        for isubint in range(self.nsubints):\n            for isubband in range(self.nsubbands):\n                self.data[isubint][isubband] = np.roll(\n                    self.data[isubint][isubband],\n                    -dmdelays[isubband],\n                    axis=0,\n                )\n',
+     "new": "        for isubint in range(self.nsubints):\n            self.data[isubint] = np.roll(self.data[isubint], -dmdelays[isubint], axis=1)\n"},
+    {"id": "c17-views-skip-first-subband", "file": F, "expect": "C17.R4", "old": '        for isubint in range(self.nsubints):\n            for isubband in range(self.nsubbands):\n                self.data[isubint][isubband] = np.roll(\n                    self.data[isubint][isubband],\n                    -dmdelays[isubband],\n                    axis=0,\n                )\n',
+     "new": "        for subint in self.data:\n            for isubband, profile in enumerate(subint[1:]):\n                profile[:] = np.roll(profile, -dmdelays[isubband], axis=0)\n"},
 ]
 TWINS = [
     {"id": "c17-twin-inline", "file": F,
@@ -410,4 +441,10 @@ TWINS = [
      "old": "            drifts = -1 * self._tph_shifts\n", "new": "            drifts = -self._tph_shifts\n"},
     {"id": "c17-twin-local-ref", "file": F,
      "old": "        delta_dm = newdm - self._ref_dm\n", "new": "        ref = self._ref_dm\n        delta_dm = newdm - ref\n"},
+    {"id": "c17-twin-element-views", "file": F, "old": '        for isubint in range(self.nsubints):\n            for isubband in range(self.nsubbands):\n                self.data[isubint][isubband] = np.roll(\n                    self.data[isubint][isubband],\n                    -dmdelays[isubband],\n                    axis=0,\n                )\n',
+     "new": "        for subint in self.data:\n            for isubband, profile in enumerate(subint):\n                profile[:] = np.roll(profile, -dmdelays[isubband], axis=0)\n"},
+    {"id": "c17-twin-zip-views", "file": F, "old": '        for isubint in range(self.nsubints):\n            for isubband in range(self.nsubbands):\n                self.data[isubint][isubband] = np.roll(\n                    self.data[isubint][isubband],\n                    -pdelays[isubint],\n                    axis=0,\n                )\n',
+     "new": "        for subint, pdelay in zip(self.data, pdelays, strict=True):\n            for profile in subint:\n                profile[:] = np.roll(profile, -pdelay, axis=0)\n"},
+    {"id": "c17-twin-plane-roll", "file": F, "old": '        for isubint in range(self.nsubints):\n            for isubband in range(self.nsubbands):\n                self.data[isubint][isubband] = np.roll(\n                    self.data[isubint][isubband],\n                    -pdelays[isubint],\n                    axis=0,\n                )\n',
+     "new": "        for isubint in range(self.nsubints):\n            self.data[isubint] = np.roll(self.data[isubint], -pdelays[isubint], axis=1)\n"},
 ]
